@@ -54,8 +54,9 @@ CHECKS = {
         text="Seeded search over delivery scripts (ints / packed bytes / mixed, short reads, EOF styles, with and without length hint) and "
              "schedules of the asynchronous hashing thread. The harness reads STREAMINFO out of the emitted bytes itself and compares rate, "
              "channels, bits, total samples and MD5 with values it computes independently from the samples the simulated source handed out, "
-             "for single-thread and multi-thread runs.",
-        design_ref="DESIGN.md sections 3.4, 5 (C03)",
+             "for single-thread and multi-thread runs. Sources may have a read history (blocks read by their owner before the encoder "
+             "gets them), may probe with an oversize chunk and fall back, and in the thorough tier one stream has 2^32+5 samples (generated on the fly).",
+        design_ref="DESIGN.md sections 3.3, 3.4, 5 (C03)",
         note="Trusted: md-5 crate as hash primitive (also used by the library; the serialisation and bookkeeping around it are independent), shuttle runtime, channel model.",
         technique="deterministic simulation: seeded schedules of the hashing thread x scripted source delivery, independent STREAMINFO/MD5 oracle",
     ),
